@@ -387,12 +387,14 @@ class C12(Prop):
                 if len(keys) >= 20 and rng.random() < 0.15:
                     ks = list(keys)          # every key at once: dozens of keys per server in one call
                     rng.shuffle(ks)
-                a = [E(ks)]
+                a = [E(ks)] if rng.random() < 0.9 else [{"$iter": [E(x) for x in ks]}]
             elif m == "delete":
                 a = [E(key)]
                 k["noreply"] = rng.choice([False, True])
             elif m == "delete_many":
                 a = [E(some(0, 5))]
+                if rng.random() < 0.2:
+                    a = [{"$iter": a[0]}]           # a one-shot iterator of keys (a generator, map(), iter())
                 k["noreply"] = rng.choice([False, True])
             elif m in ("incr", "decr"):
                 a = [E(key), rng.choice([1, 5])]
